@@ -238,17 +238,20 @@ fn parse_hunk_header(line: &str) -> Option<ParsedHunkHeader> {
         let line_numbers_and_hunk_lengths = HUNK_HEADER_FILE_COORDINATE_REGEX
             .captures_iter(file_coordinates)
             .map(|caps| {
-                (
-                    caps[1].parse::<usize>().unwrap(),
+                Some((
+                    caps[1].parse::<usize>().ok()?,
                     caps.get(2)
                         .map(|m| m.as_str())
                         // Per the specs linked above, if the hunk length is absent then it is 1.
                         .unwrap_or("1")
                         .parse::<usize>()
-                        .unwrap(),
-                )
+                        .ok()?,
+                ))
             })
-            .collect();
+            // A number too large for usize, or no file coordinates at all (e.g. "@@ foo @@"):
+            // this is not a hunk header we can render; leave the line to the other handlers.
+            .collect::<Option<Vec<(usize, usize)>>>()
+            .filter(|coordinates| !coordinates.is_empty())?;
         let code_fragment = caps[2].to_string();
         Some(ParsedHunkHeader {
             code_fragment,
